@@ -12,6 +12,12 @@ CBPF_TRUST = [
 ]
 
 
+KERNEL_TRUST = [
+    "abstract kernel Model/Kernel.lean: seccomp(2)/prctl(2) semantics incl. TSYNC all-or-nothing with the positive-tid refusal, EACCES without no_new_privs/CAP_SYS_ADMIN, EINVAL for unknown flags / rejected programs — modelled, validated against the running kernel (6.18) by live histories",
+    "the skeleton translator (harness/cmd/vextract/skeleton.go): Go statement subset → Lean state-passing definitions (Gen/Skeletons.lean); anything outside the subset becomes an opaque step of an arbitrary oracle U",
+]
+
+
 def policy_stream(profile, quick, thorough, corpus=None, seeds=3, extra=None):
     d = {"stream": "policy", "profile": profile, "quick": quick, "thorough": thorough, "thorough_seeds": seeds}
     if corpus:
@@ -64,5 +70,25 @@ PROPS = {
         "streams": [policy_stream("defects", 3000, 60000, corpus="policy")],
         "trusted": ["Go panics are observed by recover() in the harness and reported as the reply PANIC (never produced by the model)"],
         "assumptions": ["the architecture-without-tables case is reached through arch.GetInfo (C12/C19), not through Policy.Assemble on this host"],
+    },
+    "C09": {
+        "lean": ["Seccomp.Proofs.C09"],
+        "streams": [{"tool": "vprobe", "stream": "kernel", "profile": "load", "quick": 60, "thorough": 1500, "thorough_seeds": 2, "args": ["-profile", "load"]}],
+        "trusted": KERNEL_TRUST,
+        "assumptions": ["kernel semantics of seccomp(2)/prctl(2) as modelled in Model/Kernel.lean (validated against the running kernel by the histories of this run, on this kernel only)"],
+    },
+    "C10": {
+        "lean": ["Seccomp.Proofs.C10"],
+        "streams": [{"tool": "vprobe", "stream": "kernel", "profile": "tsync", "quick": 40, "thorough": 800, "thorough_seeds": 2, "args": ["-profile", "tsync"]}],
+        "trusted": KERNEL_TRUST,
+        "assumptions": ["the kernel performs a thread-sync attach as one atomic step (sighand->siglock + cred_guard_mutex): assumption about Linux, modelled by sysSeccomp",
+                        "interleavings of real threads are sampled (up to 63 extra threads spinning, sleeping, blocked in read, spawning threads), not enumerated"],
+    },
+    "C11": {
+        "lean": ["Seccomp.Proofs.C11"],
+        "streams": [{"tool": "vprobe", "stream": "kernel", "profile": "nnp", "quick": 60, "thorough": 1500, "thorough_seeds": 2, "args": ["-profile", "nnp"]}],
+        "trusted": KERNEL_TRUST,
+        "assumptions": ["the Go scheduler is modelled as: the goroutine may continue on any live thread at a schedule point unless runtime.LockOSThread is in effect",
+                        "the harness forces migration attempts at the hook between prctl and seccomp (sleep + Gosched with busy Ps)"],
     },
 }
